@@ -990,3 +990,101 @@ Theorem long_line_truncates_unrepaired :
   /\ has_long_line (xs 65535 ++ nl ++ bs "x") = false
   /\ has_long_line (bs "x" ++ nl ++ xs 65536) = true.
 Proof. vm_compute. repeat split; reflexivity. Qed.
+
+(* ====================================================================================== *)
+(** * what is left of "the newly received configuration is invalid"                         *)
+(* ====================================================================================== *)
+(* the error kinds NewTable can return: syntax (1-4), weight literal (5), empty prefix / target (6, 7;
+   the text grammar never yields them), url.Parse (8), `route weight` without match (9), path glob
+   (10), host glob (11), line beyond the scanner (13).  Nothing else keeps the last good table. *)
+Definition rejection_kinds : list N := [1; 2; 3; 4; 5; 6; 7; 8; 9; 10; 11; 13]%N.
+Definition is_rejection (k : N) : bool := existsb (N.eqb k) rejection_kinds.
+
+Section Reasons.
+  Variable pweight : str -> outcome wt.
+  Variable canon : str -> option str.
+  Variable glob_ok : str -> bool.
+
+  Lemma bind_err_kind {A B} (r : outcome A) (f : A -> outcome B) k :
+    bind r f = Err k -> r = Err k \/ exists a, r = Ok a /\ f a = Err k.
+  Proof. destruct r; cbn [bind]; intros H; [right; eauto|left; congruence|discriminate]. Qed.
+
+  Lemma parse_line_err l k : parse_line pweight l = Err k -> is_rejection k = true.
+  Proof.
+    unfold parse_line. destruct (_ || _); [discriminate|].
+    destruct (route_kw k_add _).
+    { intros H. apply bind_err_kind in H. destruct H as [H|(a & _ & H)]; [|discriminate].
+      unfold parse_route_add in H. destruct (match_add _) as [[[[[[? ?] ?] ?] ?] ?]|].
+      - destruct (parse_weight pweight _); inversion H; reflexivity.
+      - inversion H; reflexivity. }
+    destruct (route_kw k_del _).
+    { intros H. apply bind_err_kind in H. destruct H as [H|(a & _ & H)]; [|discriminate].
+      unfold parse_route_del in H. destruct (match_del_svc_tags _) as [[? ?]|]; [discriminate|].
+      destruct (match_del_tags _); [discriminate|]. destruct (match_del _) as [[[? ?] ?]|]; inversion H; reflexivity. }
+    destruct (route_kw k_weight _).
+    { intros H. apply bind_err_kind in H. destruct H as [H|(a & _ & H)]; [|discriminate].
+      unfold parse_route_weight in H. destruct (match_weight_svc _) as [[[[? ?] ?] ?]|].
+      - destruct (parse_weight pweight _); inversion H; reflexivity.
+      - destruct (match_weight_src _) as [[[? ?] ?]|].
+        + destruct (parse_weight pweight _); inversion H; reflexivity.
+        + inversion H; reflexivity. }
+    intros H; inversion H; reflexivity.
+  Qed.
+
+  Lemma parse_lines_err ls : forall k, parse_lines pweight ls = Err k -> is_rejection k = true.
+  Proof.
+    induction ls as [|l ls IH]; intros k; cbn [parse_lines]; [discriminate|].
+    intros H. apply bind_err_kind in H. destruct H as [H|(o & _ & H)]; [eapply parse_line_err; eauto|].
+    apply bind_err_kind in H. destruct H as [H|(ds & _ & H)]; [eauto|discriminate].
+  Qed.
+
+  Lemma apply_def_err t d k : apply_def canon glob_ok t d = Err k -> is_rejection k = true.
+  Proof.
+    unfold apply_def. destruct (d_cmd d).
+    - unfold add_route. destruct (hostpath _). destruct (d_src d); [intros H; inversion H; reflexivity|].
+      destruct (d_dst d); [intros H; inversion H; reflexivity|]. destruct (canon _); [|intros H; inversion H; reflexivity].
+      destruct (lookup _ _); [destruct (find _ _)|]; repeat (try destruct (glob_ok _)); intros H; inversion H; reflexivity.
+    - unfold del_route. destruct (d_tags d); [|discriminate].
+      destruct (d_src d), (d_dst d); try discriminate;
+        try (destruct (canon _); [|intros H; inversion H; reflexivity]); destruct (hostpath _); cbn zeta;
+        destruct (get_route _ _ _); discriminate.
+    - unfold weigh_route. destruct (hostpath _). cbn zeta. destruct (d_src d); [intros H; inversion H; reflexivity|].
+      destruct (get_route _ _ _); [|intros H; inversion H; reflexivity].
+      destruct (_ =? 0)%N; intros H; inversion H; reflexivity.
+  Qed.
+
+  Lemma run_from_err ds : forall t k, run_from canon glob_ok t ds = Err k -> is_rejection k = true.
+  Proof.
+    induction ds as [|d ds IH]; intros t k; cbn [run_from]; [discriminate|].
+    intros H. apply bind_err_kind in H. destruct H as [H|(t' & _ & H)]; [eapply apply_def_err; eauto|eauto].
+  Qed.
+
+  (** rejection_reasons: whenever the composed NewTable returns an error - the only situation in which
+      the update loop keeps the last good table - the error is one of the kinds listed *)
+  Theorem rejection_reasons order text k :
+    full_build pweight canon glob_ok (ring_faithful order) text = Err k -> is_rejection k = true.
+  Proof.
+    unfold full_build. intros H. apply bind_err_kind in H. destruct H as [H|(ds & _ & H)].
+    - unfold scan_parse in H. destruct (existsb too_long _).
+      + apply bind_err_kind in H. destruct H as [H|(x & _ & H)]; [eapply parse_lines_err; eauto|inversion H; reflexivity].
+      + eapply parse_lines_err; exact H.
+    - unfold build_defs in H. apply bind_err_kind in H. destruct H as [H|(t & _ & H)].
+      + eapply run_from_err. eapply build_from_err; eauto.
+      + exfalso. eapply ring_table_no_err; eauto.
+  Qed.
+End Reasons.
+
+(** the update loop skips a candidate (keeps the last good table) exactly when NewTable returns one of
+    those errors; since d16ce3d the service-derived half of a candidate contains only commands that were
+    validated one by one (C14/C01), so what remains in practice are the manual overrides, `route weight`
+    without a match, and commands whose validity depends on the other half of the text *)
+Theorem keeps_last_good_only_on_rejection pweight canon glob_ok order text : perm_order order ->
+  (forall ds, scan_parse pweight text = Ok ds -> Forall route_ok (reached canon glob_ok [] ds)) ->
+  build_opt (full_build pweight canon glob_ok (ring_faithful order)) text = None ->
+  exists k, full_build pweight canon glob_ok (ring_faithful order) text = Err k /\ is_rejection k = true.
+Proof.
+  intros Hord Hsz Hb. unfold build_opt in Hb.
+  pose proof (proj1 (full_build_total pweight canon glob_ok order Hord text Hsz)) as Hnp.
+  destruct (full_build pweight canon glob_ok (ring_faithful order) text) as [bt|k|] eqn:E; [discriminate| |congruence].
+  exists k. split; [reflexivity|]. exact (rejection_reasons pweight canon glob_ok order text k E).
+Qed.
